@@ -509,6 +509,11 @@ class columns_fixed_sizes:
     invariant = staticmethod(pile_ri)
     deterministic_reads = ("_contents", "min_width")
     static_checks = [lambda: reads_only(CFIX_KEY, {"contents", "focus_position", "min_width"})]
+    notes = ("children: Widget protocol; options as Columns.options() makes them with integer weights 0 .. 2^16-1, given widths < 2^22, at most "
+             "2^10 columns, min_width < 2^12; columns in box_columns hold box widgets (constructor doc) -- `col_fixed_wf`; `width / weight` and "
+             "`int(coefficient * weight + 0.5)` read as exact rationals (DESIGN 3.6), only `>= min_width` of the group width is used; local dicts: "
+             "pyvc.fmap with int keys, their len() by MapVal.card_range_axiom; positions in the work lists are ghost arrays (witnesses supplied at "
+             "inv-preserve); deterministic_outcome backed by the static check that the body reads the contents, the focus position and min_width only")
     ensures_callee = staticmethod(_col_geometry_at_call_site)
     on_raise_callee = staticmethod(_col_raise_at_call_site)
 
@@ -579,6 +584,7 @@ class columns_gcs_fixed:
     raises = (ColumnsError,)
     invariant = staticmethod(pile_ri)
     deterministic_reads = ("_contents", "min_width")
+    static_checks = [lambda: reads_only(GCS_KEY, {"contents", "focus_position", "column_widths", "_get_fixed_column_sizes"})]
     ensures_callee = staticmethod(_col_geometry_at_call_site)
     on_raise_callee = staticmethod(_col_raise_at_call_site)
 
